@@ -105,7 +105,7 @@ Proof. intros; repeat split; reflexivity. Qed.
 
 Theorem refuted_colour_below_acc_loop : forall incs sc,
   invB_t plain = true /\ forallb nodir plain = true /\
-  invB_t (run incs sc [OAccLoop [] 0 DaFalse; OColour [0] 0] plain) = false.
+  invB_t (run incs sc [OAccLoop [] 0 DaFalse false false false false; OColour [0] 0] plain) = false.
 Proof. intros; repeat split; reflexivity. Qed.
 
 (* ------------------------------------------------------------------ verdict for the current source *)
@@ -137,7 +137,7 @@ Definition ex_tree : tree :=
   [NHalo; NLoop LCells false [NKern true false [(AInc, Cont); (ARead, Cont)]];
    NLoop LDof false [NKern false false [(AWrite, Unknown)]]].
 Definition ex_hist : list op :=
-  [OColour [] 1; OOmpDo [1] 0; OOmpParDo [] 2; OAccLoop [] 1 DaCaught].
+  [OColour [] 1; OOmpDo [1] 0; OOmpParDo [] 2; OAccLoop [] 1 DaCaught false false false false].
 
 Example nonvacuous_A :
   premises [AInc; AReadInc] false ex_tree = true /\ no_builtin_incr ex_tree = true /\
@@ -153,6 +153,18 @@ Example nonvacuous_B :
   invB_t ex_tree = true /\ hist_ok (safeB [AInc] true) [AInc] true ex_hist ex_tree = true /\
   run [AInc] true ex_hist ex_tree <> ex_tree.
 Proof. repeat split; try reflexivity. discriminate. Qed.
+
+(* options of ACCLoopTrans: `sequential` skips the colouring test, the directive produced is
+   `acc loop seq` (DAccLoopSeq) whatever gang/vector say, and such a loop is not a parallel loop *)
+Example seq_exempt :
+  run [AInc; AReadInc] false [OAccLoop [] 1 DaFalse true true false false] ex_tree =
+    [NHalo; NDir DAccLoopSeq [NLoop LCells false [NKern true false [(AInc, Cont); (ARead, Cont)]]];
+     NLoop LDof false [NKern false false [(AWrite, Unknown)]]] /\
+  invA_t (run [AInc; AReadInc] false [OAccLoop [] 1 DaFalse true true false false] ex_tree) = true /\
+  invB_t (run [AInc; AReadInc] false
+            [OColour [] 1; OAccLoop [] 1 DaFalse true false true true] ex_tree) = true /\
+  step [AInc; AReadInc] false (OAccLoop [] 1 DaFalse false true false false) ex_tree = None.
+Proof. repeat split; reflexivity. Qed.
 
 Example covers_examples : covers_all [AInc; AReadInc] = true /\ covers_all [AInc] = false.
 Proof. split; reflexivity. Qed.
